@@ -15,6 +15,10 @@ import re
 d[5]=re.sub(r"\((\d+) `fix:` commits", lambda m: "(%d `fix:` commits" % (int(m.group(1))+1), d[5])
 open('/verif/DESIGN.md','w').write("\n".join(d))
 if len(sys.argv)>8:
-    p='/verif/notes/leads-round5.md'; c=open(p).read()
-    assert sys.argv[7] in c, "lead text not found"
-    c=c.replace(sys.argv[7],sys.argv[8]); open(p,'w').write(c)
+    import glob
+    done = False
+    for p in sorted(glob.glob('/verif/notes/leads-round*.md'), reverse=True):
+        c=open(p).read()
+        if sys.argv[7] in c:
+            open(p,'w').write(c.replace(sys.argv[7],sys.argv[8])); done = True; break
+    assert done, "lead text not found in any notes/leads-round*.md"
